@@ -248,9 +248,9 @@ theorem C04_pass2_order_independent (f : File) (hnd : NoDupAlias f) (p₁ p₂ :
     declares `point` -/
 def chainFile : File :=
   ⟨"c.exp",
-   [⟨"design", 0, [], [⟨.use, "catalogue", 1, some [⟨"point", none, 1⟩]⟩]⟩,
-    ⟨"catalogue", 5, [], [⟨.use, "geometry", 6, some [⟨"point", none, 6⟩]⟩]⟩,
-    ⟨"geometry", 9, [.entity ⟨"point", 10, [], [], [], []⟩], []⟩], []⟩
+   [⟨"design", 0, [], [⟨.use, "catalogue", 1, some [⟨"point", none, 1⟩]⟩], none⟩,
+    ⟨"catalogue", 5, [], [⟨.use, "geometry", 6, some [⟨"point", none, 6⟩]⟩], none⟩,
+    ⟨"geometry", 9, [.entity ⟨"point", 10, [], [], [], [], []⟩], [], none⟩], []⟩
 
 /-- without the fall-back scan the chained import resolves only when the re-exporting schema was visited first -/
 theorem C04_import_order_witness :
@@ -269,37 +269,57 @@ example : NoDupAlias chainFile := by
 theorem hasError_of_mem {ds : List Diag} {d : Diag} (h : d ∈ ds) (he : isErrorCode d.code = true) : hasError ds = true := by
   simp only [hasError, List.any_eq_true]; exact ⟨d, h, he⟩
 
-/-- undefined supertype (the name denotes no entity, neither in the schema nor through an interface clause) -/
+/-- a supertype name that denotes no entity — nothing at all, or an imported non-entity — is an ERROR -/
 theorem C04_reject_undefined_supertype (path : String) (env : Env) (s : Schema) (e : Entity) (n : String) (l : Nat)
     (he : Decl.entity e ∈ s.decls) (hs : (n, l) ∈ e.supers) (hn : isEnt env s n = false) :
     hasError (pass3 path env s) = true := by
-  apply hasError_of_mem (d := mk path LibErrors.UNKNOWN_SUPERTYPE l [sArg n, sArg e.name])
-  · simp only [pass3, List.mem_flatMap]
-    refine ⟨.entity e, he, ?_⟩
-    simp only [List.mem_append, List.mem_filterMap]
-    exact Or.inl ⟨(n, l), hs, by simp [hn]⟩
-  · show isErrorCode LibErrors.UNKNOWN_SUPERTYPE = true
-    decide
+  cases hfd : env.foreignDecl n with
+  | none =>
+    apply hasError_of_mem (d := mk path LibErrors.UNKNOWN_SUPERTYPE l [sArg n, sArg e.name])
+    · simp only [pass3, List.mem_flatMap]
+      refine ⟨.entity e, he, ?_⟩
+      simp only [List.mem_append, List.mem_filterMap]
+      exact Or.inl ⟨(n, l), hs, by simp [hn, hfd]⟩
+    · show isErrorCode LibErrors.UNKNOWN_SUPERTYPE = true
+      decide
+  | some p =>
+    apply hasError_of_mem (d := mk path LibErrors.SUPERTYPE_RESOLVE l [sArg n, .int p.2])
+    · simp only [pass3, List.mem_flatMap]
+      refine ⟨.entity e, he, ?_⟩
+      simp only [List.mem_append, List.mem_filterMap]
+      exact Or.inl ⟨(n, l), hs, by simp [hn, hfd]⟩
+    · show isErrorCode LibErrors.SUPERTYPE_RESOLVE = true
+      decide
 
-/-- undefined subtype -/
+/-- likewise for a name in the SUPERTYPE OF expression -/
 theorem C04_reject_undefined_subtype (path : String) (env : Env) (s : Schema) (e : Entity) (n : String)
     (he : Decl.entity e ∈ s.decls) (hs : n ∈ e.subs) (hn : isEnt env s n = false) :
     hasError (pass3 path env s) = true := by
-  apply hasError_of_mem (d := mk path LibErrors.UNKNOWN_SUBTYPE e.line [sArg n, sArg e.name])
-  · simp only [pass3, List.mem_flatMap]
-    refine ⟨.entity e, he, ?_⟩
-    simp only [List.mem_append, List.mem_filterMap]
-    exact Or.inr ⟨n, hs, by simp [hn]⟩
-  · show isErrorCode LibErrors.UNKNOWN_SUBTYPE = true
-    decide
+  cases hfd : env.foreignDecl n with
+  | none =>
+    apply hasError_of_mem (d := mk path LibErrors.UNKNOWN_SUBTYPE e.line [sArg n, sArg e.name])
+    · simp only [pass3, List.mem_flatMap]
+      refine ⟨.entity e, he, ?_⟩
+      simp only [List.mem_append, List.mem_filterMap]
+      exact Or.inr ⟨n, hs, by simp [hn, hfd]⟩
+    · show isErrorCode LibErrors.UNKNOWN_SUBTYPE = true
+      decide
+  | some p =>
+    apply hasError_of_mem (d := mk path LibErrors.SUBTYPE_RESOLVE e.line (subtypeResolveArgs n p.1 p.2))
+    · simp only [pass3, List.mem_flatMap]
+      refine ⟨.entity e, he, ?_⟩
+      simp only [List.mem_append, List.mem_filterMap]
+      exact Or.inr ⟨n, hs, by simp [hn, hfd]⟩
+    · show isErrorCode LibErrors.SUBTYPE_RESOLVE = true
+      decide
 
 /-- undefined schema in an interface clause -/
 theorem C04_reject_undefined_schema (f : File) (s : Schema) (i : Iface)
     (hs : s ∈ f.schemas) (hi : i ∈ s.ifaces) (hn : findSchema f i.schema = none) (hne : i.items ≠ some []) :
     hasError (resolveDiags f).diags = true := by
-  apply hasError_of_mem (d := mk f.path LibErrors.UNDEFINED_SCHEMA i.line [sArg i.schema])
+  apply hasError_of_mem (d := mk (fileOf f s) LibErrors.UNDEFINED_SCHEMA i.line [sArg i.schema])
   · simp only [resolveDiags, List.mem_append, List.mem_flatMap]
-    refine Or.inl (Or.inl (Or.inl (Or.inl ⟨s, hs, ?_⟩)))
+    refine Or.inl (Or.inl (Or.inl (Or.inl (Or.inr ⟨s, hs, ?_⟩))))
     simp only [pass1, List.mem_flatMap]
     refine ⟨i, hi, ?_⟩
     simp only [hn, Option.isSome_none, Bool.false_eq_true, if_false]
